@@ -44,7 +44,15 @@ type VAIn struct {
 	Name      string `json:"name"`
 	PV        int    `json:"pv"`
 	OtherNode bool   `json:"otherNode"`
+	// Deleting: the attach-detach controller has deleted the object (deletionTimestamp set) but the CSI
+	// external-attacher's finalizer still holds it: the detach is in progress (or failing). The object exists.
+	Deleting bool `json:"deleting,omitempty"`
+	// Unattached: status.attached is false (and a detach error is recorded when the object is also being deleted)
+	Unattached bool `json:"unattached,omitempty"`
 }
+
+// attacherFinalizer is the finalizer the CSI external-attacher puts on every VolumeAttachment it handles.
+const attacherFinalizer = "external-attacher/csi-example-com"
 
 type ClaimIn struct {
 	Deleting bool `json:"deleting"`
@@ -169,10 +177,18 @@ func buildPod(p PodIn, i int) []client.Object {
 	return out
 }
 
-func buildVA(v VAIn) client.Object {
+func buildVA(v VAIn, now int64) client.Object {
 	va := &storagev1.VolumeAttachment{
-		ObjectMeta: metav1.ObjectMeta{Name: v.Name, UID: types.UID("uid-" + v.Name)},
+		ObjectMeta: metav1.ObjectMeta{Name: v.Name, UID: types.UID("uid-" + v.Name), CreationTimestamp: mt(-3600 * second), Finalizers: []string{attacherFinalizer}},
 		Spec:       storagev1.VolumeAttachmentSpec{Attacher: "csi.example.com", NodeName: nodeNm},
+		Status:     storagev1.VolumeAttachmentStatus{Attached: !v.Unattached},
+	}
+	if v.Deleting {
+		ts := mt(floorSec(now) - 30*second)
+		va.DeletionTimestamp = &ts
+		if v.Unattached {
+			va.Status.DetachError = &storagev1.VolumeError{Time: ts, Message: "injected detach failure"}
+		}
 	}
 	if v.OtherNode {
 		va.Spec.NodeName = otherNd
@@ -295,7 +311,7 @@ func implNode(raw json.RawMessage) (any, error) {
 		objs = append(objs, buildPod(p, i)...)
 	}
 	for _, v := range in.VAs {
-		objs = append(objs, buildVA(v))
+		objs = append(objs, buildVA(v, in.Now))
 	}
 	w := newWorld(in.Now, objs...)
 	w.seedInstance(in.Instance, thePID)
@@ -395,6 +411,9 @@ func genVAs(r *rand.Rand, maxVAs int) []VAIn {
 			v.PV = -1
 		}
 		v.OtherNode = r.Float64() < 0.1
+		// the transitional states of an attachment: deleted but held by the attacher's finalizer; not (yet / any more) attached
+		v.Deleting = r.Float64() < 0.35
+		v.Unattached = r.Float64() < 0.2
 		vas = append(vas, v)
 	}
 	return vas
@@ -551,6 +570,9 @@ func enumNode(t core.Tier) []any {
 	vaCases := []vaCase{
 		{"none", nil, nil},
 		{"blocking", []VAIn{{Name: "va-0", PV: 1}}, nil},
+		{"detaching", []VAIn{{Name: "va-0", PV: 1, Deleting: true}}, nil},
+		{"unattached", []VAIn{{Name: "va-0", PV: 1, Unattached: true}}, nil},
+		{"detach-failing", []VAIn{{Name: "va-0", PV: 1, Deleting: true, Unattached: true}, {Name: "va-1", PV: -1, Deleting: true}}, nil},
 		{"undrainable", []VAIn{{Name: "va-0", PV: 1}}, []PodIn{{Name: "pod-9", Tol: "all", Phase: "Running", PV: 1}}},
 		{"inline", []VAIn{{Name: "va-0", PV: -1}}, nil},
 	}
@@ -591,8 +613,8 @@ func enumNode(t core.Tier) []any {
 	for _, ready := range []string{"True", "False"} {
 		for _, inst := range []string{"running", "gone"} {
 			for _, nClaims := range []int{0, 1, 2} {
-				for _, blocked := range []string{"clear", "pod", "va", "va-expired"} {
-					if nClaims == 2 && (blocked == "clear" || blocked == "va-expired") {
+				for _, blocked := range []string{"clear", "pod", "va", "va-expired", "va-detaching", "va-detaching-expired"} {
+					if nClaims == 2 && (blocked == "clear" || blocked == "va-expired" || blocked == "va-detaching-expired") {
 						// two claims for one provider id: the finalizer would be removed with the instance running (the
 						// recorded finding C09-node-duplicate-claims; its witness is in the corpus) - keep such inputs rare
 						continue
@@ -603,7 +625,7 @@ func enumNode(t core.Tier) []any {
 								Claims: []ClaimIn{}, Pods: []PodIn{{Name: "pod-8", Tol: "all", Phase: "Running", PV: 2}}, VAs: []VAIn{{Name: "va-8", PV: 2}}, Instance: inst, Faults: map[string]string{k: cls}}
 							for i := 0; i < nClaims; i++ {
 								c := ClaimIn{Deleting: i == 1, Drained: "Unknown", DrainedAt: now - 30*second}
-								if blocked == "va-expired" {
+								if blocked == "va-expired" || blocked == "va-detaching-expired" {
 									c.Term = &past
 								}
 								in.Claims = append(in.Claims, c)
@@ -613,6 +635,8 @@ func enumNode(t core.Tier) []any {
 								in.Pods = append(in.Pods, PodIn{Name: "pod-0", Tol: "none", Phase: "Running", PV: -1})
 							case "va", "va-expired":
 								in.VAs = append(in.VAs, VAIn{Name: "va-0", PV: 1})
+							case "va-detaching", "va-detaching-expired":
+								in.VAs = append(in.VAs, VAIn{Name: "va-0", PV: 1, Deleting: true})
 							}
 							out = append(out, in)
 						}
@@ -676,6 +700,38 @@ func nodeLabels(raw json.RawMessage, impl any) []string {
 	if len(in.Faults) == 0 {
 		l = append(l, "fault:none")
 	}
+	l = append(l, vaLabels(in.VAs)...)
+	return l
+}
+
+// vaLabels: which kinds of volume attachment of the node the input holds
+func vaLabels(vas []VAIn) []string {
+	seen := map[string]bool{}
+	for _, v := range vas {
+		if v.OtherNode {
+			continue
+		}
+		k := "va:plain"
+		switch {
+		case v.PV < 0:
+			k = "va:inline"
+		case v.Deleting && v.Unattached:
+			k = "va:detach-failing"
+		case v.Deleting:
+			k = "va:deleting"
+		case v.Unattached:
+			k = "va:unattached"
+		}
+		seen[k] = true
+	}
+	if len(seen) == 0 {
+		return []string{"va:none"}
+	}
+	var l []string
+	for k := range seen {
+		l = append(l, k)
+	}
+	sort.Strings(l)
 	return l
 }
 
